@@ -686,6 +686,7 @@ pub fn main(args: &Args) {
     }
     println!("C20 tier={tier} seed={seed} scenarios={n} workers={workers}");
     let scratch = Arc::new(Mutex::new(Scratch::new("c20")));
+    let _ = e2::INTERPOSER_LOG.set(scratch.lock().unwrap().root.join("interposer.log"));
     let next = Arc::new(AtomicU64::new(0));
     let tally = Arc::new(Mutex::new(Tally::default()));
     let mut hs = vec![];
@@ -870,6 +871,7 @@ pub fn main(args: &Args) {
             "scenarios_where_model_expects_an_error": tally.expected_errors,
             "scenarios_by_equivalence": tally.by_equivalence,
             "directory_order_faults_injected_runs": tally.dir_modes,
+            "interposer_calls_answered": e2::interposer_totals(),
             "swap_clause_pairs_compared": tally.swap_checked,
             "left_right_marker_checks": tally.marked_checked,
             "runs_per_hour": (tally.runs as f64 / wall.max(0.001) * 3600.0) as u64,
